@@ -25,6 +25,8 @@ import FV.Proofs.AdapterProgress
 import FV.Proofs.Monitor
 import FV.Model.Framed
 import FV.Proofs.Framed
+import FV.Model.NatsClient
+import FV.Proofs.NatsClient
 
 namespace FV.C15
 open FV FV.Adapter FV.Monitor
@@ -323,6 +325,70 @@ theorem c15_garbage_frame_closes (good : List Bytes) (bad : Bytes) (rest : List 
     have := ih (fun g hg => hex g (by simp [hg]))
     simp [Framed.deliver, hex f (by simp), this]
 
+/-! ### The NATS client transport (`FV.NatsClient`: nats_transport.go + fBaseTransport) -/
+
+/-- No send on a closed channel: in every reachable state of the NATS client transport — any
+history of Open / Close / IsOpen / Request, connection closed by the application, broker going
+away and coming back, closes repeated, Close after a failed Close — `fBaseTransport.Close` has
+never written to or closed an already closed `Closed()` channel (which would panic). -/
+theorem c15_nats_no_send_on_closed_channel {s : NatsClient.Sys} (hr : NatsClient.Reachable s) : s.panicked = false :=
+  (NatsClient.ninv_reachable hr).noPanic
+
+/-- Exactly one cause per incarnation: the channel of the open incarnation carries nothing and is
+open; every other incarnation's channel carries exactly one value (nil: the only cause this
+transport publishes) and is closed. -/
+theorem c15_nats_one_cause_per_incarnation {s : NatsClient.Sys} (hr : NatsClient.Reachable s) (k : Nat)
+    (i : NatsClient.Inc) (hi : s.incs[k]? = some i) :
+    (s.openAt k → i.sent = 0 ∧ i.chanClosed = false) ∧ (¬ s.openAt k → i.sent = 1 ∧ i.chanClosed = true) ∧ i.sent ≤ 1 := by
+  have h := (NatsClient.ninv_reachable hr).each k i hi
+  unfold NatsClient.Sys.openAt
+  by_cases ho : s.sub = true ∧ k + 1 = s.incs.length
+  · simp only [ho, and_self, if_true] at h; exact ⟨fun _ => h, fun hn => absurd ho hn, by omega⟩
+  · simp only [ho, if_false] at h; exact ⟨fun hn => absurd hn ho, fun _ => h, by omega⟩
+
+/-- A failed `Close` (Unsubscribe fails: connection closed for good) publishes nothing and changes
+nothing; so does a `Close` of a closed transport (which returns nil: this transport's `Close` is
+idempotent rather than NOT_OPEN). -/
+theorem c15_nats_failed_close_publishes_nothing (s : NatsClient.Sys) :
+    ((NatsClient.step s .close).2 ≠ .ok → (NatsClient.step s .close).1 = s) ∧
+    (s.sub = false → NatsClient.step s .close = (s, .ok)) := by
+  constructor
+  · simp only [NatsClient.step]; split
+    · simp
+    · split <;> simp
+  · intro h; simp [NatsClient.step, h]
+
+/-- ALREADY_OPEN / NOT_OPEN are reported consistently: `Open` answers ALREADY_OPEN only on an open
+(subscribed) transport and nil only on a closed one; `Request` answers NOT_OPEN exactly when
+`IsOpen` is false. -/
+theorem c15_nats_states_consistent (s : NatsClient.Sys) :
+    ((NatsClient.step s .open).2 = .alreadyOpen → s.sub = true) ∧
+    ((NatsClient.step s .open).2 = .ok → s.sub = false ∧ (NatsClient.step s .open).1.sub = true) ∧
+    ((NatsClient.step s .request).2 = .notOpen ↔ s.isOpen = false) ∧
+    (NatsClient.step s .isOpen).2 = .bool s.isOpen := by
+  refine ⟨?_, ?_, ?_, rfl⟩
+  · simp only [NatsClient.step]; split
+    · simp
+    · split <;> simp_all
+  · simp only [NatsClient.step]; split
+    · simp
+    · split <;> simp_all
+  · simp only [NatsClient.step]; cases s.isOpen <;> simp
+
+/-- Reopen works after a clean close: on a connected connection, `Close` of an open transport
+followed by `Open` succeeds and starts a new incarnation — any number of times. -/
+theorem c15_nats_reopen_again {s : NatsClient.Sys} (hr : NatsClient.Reachable s) (hc : s.conn = .connected)
+    (hs : s.sub = true) :
+    (NatsClient.step s .close).2 = .ok ∧
+    (NatsClient.step (NatsClient.step s .close).1 .open).2 = .ok ∧
+    (NatsClient.step (NatsClient.step s .close).1 .open).1.incs.length = s.incs.length + 1 := by
+  have hne := (NatsClient.ninv_reachable hr).subInc hs
+  obtain ⟨l, x, hl⟩ : ∃ l x, s.incs = l ++ [x] := ⟨s.incs.dropLast, s.incs.getLast hne, (List.dropLast_concat_getLast hne).symm⟩
+  have hlast : s.incs.getLast? = some x := by rw [hl]; simp
+  simp only [NatsClient.step, hs, hc, NatsClient.baseClose, hlast]
+  simp
+  split <;> simp [hl]
+
 /-! Non-vacuity: the hypotheses are met by non-trivial reachable states. -/
 
 /-- two failures in a row with a reopen in between, on the repaired code: both detected -/
@@ -343,6 +409,11 @@ example : ∃ s, Reachable s ∧ s.openAt 1 ∧ s.loopPc 1 = some (.onerror .eof
 /-- a 2-byte frame then a cut inside the second frame's body: one frame delivered -/
 example : Framed.deframe ((Framed.encode [[1, 2], [3, 4, 5]]).take 11) = ([[1, 2]], .cutBody) := by
   simp [Framed.encode, be32, Framed.deframe, rd32, Framed.maxLength]
+
+/-- NATS client transport: open, connection closed for good, Close fails twice, nothing published -/
+example : (NatsClient.run NatsClient.init [.open, .connClose, .close, .close]).incs = [⟨0, false⟩] ∧
+    (NatsClient.run NatsClient.init [.open, .close, .open, .brokerDown, .close, .brokerUp, .open]).incs =
+      [⟨1, true⟩, ⟨1, true⟩, ⟨0, false⟩] := by decide
 
 example : attempts (handleClose (Base.policy ⟨2, 1, 4⟩) false [false, false, true]) = 2 := by decide
 example : sleeps (handleClose (Base.policy ⟨3, 1, 3⟩) false [false, false, true]) = [1, 2, 3] := by decide
